@@ -690,7 +690,9 @@ def ymd(ylo, yhi, for_datetime):
         if v >= d + 1:                       # 31 + 0.99999999999999994 rounds to 32.0
             v = math.nextafter(float(d + 1), 0.0)
         return [y, m, v]
+    # the ends of the era are over-weighted: secular (T^2, T^3) slips are largest there
     yr = st.one_of(st.integers(ylo, yhi), st.integers(max(ylo, 1900), min(yhi, 2100)),
+                   st.integers(ylo, min(yhi, ylo + 120)), st.integers(max(ylo, yhi - 120), yhi),
                    st.sampled_from([ylo, yhi, max(ylo, 1582), min(yhi, 2000)]))
     frac = st.one_of(st.just(0.0), st.floats(0, 1, exclude_max=True), st.sampled_from([0.5, 0.25]))
     return st.builds(build, yr, st.integers(1, 12), st.integers(1, 31), frac)
@@ -724,7 +726,7 @@ PLAN = {
     "reflect_geo": (2, 2500), "reflect_app": (2, 2500),
     "frame_j2000": (2, 2500), "rect_mean": (1, 2500), "rect_j2000": (2, 2500),
     "rect_b1950": (2, 2500), "rect_equinox": (4, 2000),
-    "obliquity": (2, 5000), "nutation": (2, 3000), "coarse": (2, 2500),
+    "obliquity": (2, 5000), "nutation": (4, 3500), "coarse": (2, 2500),
 }
 
 
@@ -740,9 +742,27 @@ def tasks(tier, seed):
     return out
 
 
+def era_end_dates():
+    """Dates in the first and the last 150 years of -2000..4000 only (every form): secular slips in
+    the nutation arguments are largest there and exceed the stated bounds on a fraction of a per
+    cent of the dates only."""
+    def build(c, lo_end, k):
+        y = (-2000 + k) if lo_end else (3999 - k)
+        c = dict(c)
+        c["ymd"] = [y] + list(c["ymd"][1:])
+        if c["form"] in ("date", "datetime", "datetime_time") and y < 1:
+            c["form"] = "epoch"
+        if c["ymd"][1] == 2 and int(c["ymd"][2]) > 28:
+            c["ymd"][2] = 28
+        return c
+    return st.builds(build, date_cases(-2000, 3999), st.booleans(), st.integers(0, 150))
+
+
 def t_given(rec, clause, shard, n):
     _FAILED_LABELS.pop(clause, None)
     rec.given(clause, STRATS[clause](), n, shard=shard)
+    if clause == "nutation":
+        rec.given(clause, era_end_dates(), n, shard="ends%s" % shard)
     # cases excluded as known findings never reach the label histogram through the core;
     # show what they covered under a prefix of their own (all but a shrink sequence of a
     # genuine violation, if any, are known-finding exclusions)
